@@ -35,7 +35,7 @@ def run(ctx):
     tp = ctx.path("outcomes.ndjson")
     cap = 60000 if ctx.quick else 400000
     cmd = [binp, "-in", pp, "-out", tp, "-seed", str(ctx.seed), "-cap", str(cap),
-           "-random", "300" if ctx.quick else "20000"]
+           "-random", "300" if ctx.quick else "20000", "-budget", "45s" if ctx.quick else "20m"]
     p = ctx.run(cmd, timeout=3000)
     stats = json.loads(p.stdout.strip().splitlines()[-1])
     bad, nlines, vstates = sshdfam.validate(ctx, tp, "lin", parts=1, module="TrackerLin", cfg="TrackerLin.cfg")
